@@ -35,8 +35,9 @@ DTs == {0, 1, L - (now % L) - 1, L - (now % L), L, Interval - (now % Interval), 
 
 WriteEvents ==
     {[e |-> "write", t |-> now + dt, kind |-> kd, c |-> c] : dt \in DTs, kd \in MCKinds, c \in 1..MaxC}
-    \* a response time of 0 ms is an event too (it lowers the minimum)
-    \cup (IF "rt" \in MCKinds THEN {[e |-> "write", t |-> now + dt, kind |-> "rt", c |-> 0] : dt \in DTs} ELSE {})
+    \* a response time of 0 ms is an event too (it lowers the minimum); only in the depth-bounded behaviour
+    \* generation - it does not count against the budget that bounds the exhaustive run
+    \cup (IF GenMode /\ "rt" \in MCKinds THEN {[e |-> "write", t |-> now + dt, kind |-> "rt", c |-> 0] : dt \in DTs} ELSE {})
 AdvEvents == {[e |-> "adv", t |-> now + dt] : dt \in DTs \ {0}}
 
 MCEvents == IF ~on THEN ResetEvents ELSE WriteEvents \cup AdvEvents
